@@ -186,6 +186,18 @@ class CLI:
         else:
             self.parser.parse_args(['-h'])
 
+    def usage_error(self, message):
+        """
+        Report incorrect usage: *message* and the command's help, exit status 2
+        """
+        sys.stderr.write(message)
+        try:
+            self.do_help()
+        except SystemExit:
+            # argparse exits (with status 0) after printing help
+            pass
+        return 2
+
     def do_detect(self):
         self._args.cmd = 'detect'
         return self.detect_or_inspect(inspect=False)
@@ -226,9 +238,7 @@ class CLI:
             elif self._args.key:
                 mos_file_keys = [self._args.key]
             else:
-                sys.stderr.write("Prefix or file key must be provided with bucket name\n\n")
-                self.do_help()
-                return 2
+                return self.usage_error("Prefix or file key must be provided with bucket name\n\n")
             for mos_file_key in mos_file_keys:
                 try:
                     mo = MosFile.from_s3(self._args.bucket_name, mos_file_key)
@@ -240,9 +250,7 @@ class CLI:
                     mo.inspect()
                     print()
         else:
-            sys.stderr.write("Files or bucket name and prefix or key must be provided\n\n")
-            self.do_help()
-            return 2
+            return self.usage_error("Files or bucket name and prefix or key must be provided\n\n")
 
     def detect_file(self, mo, filename):
         if mo.completed:
@@ -273,9 +281,7 @@ class CLI:
                         allow_incomplete=self._args.incomplete,
                     )
             else:
-                sys.stderr.write("Files or bucket name and prefix must be provided\n\n")
-                self.do_help()
-                return 2
+                return self.usage_error("Files or bucket name and prefix must be provided\n\n")
         except InvalidMosCollection as e:
             sys.stderr.write(f"Error: {e}\n")
             return 2
